@@ -1569,12 +1569,12 @@ fn main() {
     let n_prog = args.tier.pick(80usize, 3000usize);
     let mut runner = gen::runner(args.subseed(172));
     let mut trees = gen::batch(&gene_strategy(), &mut runner, n_prog);
-    let with_hook = [0usize, 1, 2];
+    // stratification of the final probe: sites cycle with period 26, hook classes with period 11 (coprime), so every
+    // (site, class) pair is reached; 6 of 11 programs have a real hook, 5 of 11 a declaration without one
+    const CLASS_SEQ: [usize; 11] = [0, 1, 2, 3, 0, 1, 4, 2, 3, 4, 5];
     let forced_of = |i: usize| -> Forced {
         let s = (i + args.seed as usize * 7) % SITES.len();
-        let round = i / SITES.len();
-        // two of three rounds force a real hook on the final probe's type, the third leaves the weighted draw
-        let hook_class = if round % 3 == 2 { None } else { Some(with_hook[(round + i) % 3]) };
+        let hook_class = Some(CLASS_SEQ[(i + args.seed as usize * 3) % CLASS_SEQ.len()]);
         Forced { site: Some(s), hook_class }
     };
     let f = farm.get_or_insert_with(|| Farm::new("c17"));
